@@ -837,4 +837,261 @@ def witConn (bytes : Nat) (nak : Int) (bitrate : Rat) : ConnIn Rat :=
 /-- a second connection (id 9, no RTT estimate yet) -/
 def witConn9 : ConnIn Rat := { id := 9, smoothRtt := 0, bytesTotal := 0, nakTotal := 0, bitrate := 0 }
 
+/-! ## Round 4 (P-C item 2): WHICH history an entry of a reachable controller is the state of
+
+`CtlReach.entry_run` says "some op list".  Here the controller is indexed by the list of `tick_all`
+calls that produced it (`ctlOf calls`), and the entry of key `id` is proved to be `run` of the
+concatenation of `connOps c now` over exactly the inputs `c` with `c.id = id` of the calls since the
+entry was (re)created — the maximal suffix of calls that all contain `id` (`Session`). -/
+section session
+variable {F : Type} [Scalar F]
+
+/-- one `tick_all` call: the connection slice and the time stamp -/
+abbrev Call (F : Type) := List (ConnIn F) × Nat
+
+/-- the controller after the calls (oldest first) from `LinkCcController::new()` -/
+def ctlOf (calls : List (Call F)) : Ctl F := calls.foldl (fun m c => tickAll m c.1 c.2) []
+
+/-- the call's slice contains a connection with this id -/
+def hasId (id : Nat) (call : Call F) : Bool := call.1.any (·.id == id)
+
+/-- the ops one call applies to the entry of `id`: one loop body per input with that id, in order -/
+def callOps (id : Nat) (call : Call F) : List (Op F) :=
+  (call.1.filter (·.id == id)).flatMap (connOps · call.2)
+
+/-- the ops of a run of consecutive calls -/
+def sessionOps (id : Nat) (suf : List (Call F)) : List (Op F) := suf.flatMap (callOps id)
+
+/-- `calls = pre ++ suf` where `suf` is the current life of the entry of `id`: the entry did not
+exist after `pre` (no call yet, or the last call of `pre` did not contain `id`, so the entry was
+garbage-collected), and every call of the non-empty `suf` contains `id`. -/
+structure Session (id : Nat) (pre suf : List (Call F)) : Prop where
+  absent_before : ∀ last, pre.getLast? = some last → hasId id last = false
+  present : ∀ call ∈ suf, hasId id call = true
+  nonempty : suf ≠ []
+
+theorem ctlOf_append (xs ys : List (Call F)) :
+    ctlOf (xs ++ ys) = ys.foldl (fun m c => tickAll m c.1 c.2) (ctlOf xs) := by
+  simp [ctlOf, List.foldl_append]
+
+theorem ctlOf_snoc (xs : List (Call F)) (c : Call F) :
+    ctlOf (xs ++ [c]) = tickAll (ctlOf xs) c.1 c.2 := by
+  simp [ctlOf, List.foldl_append]
+
+theorem ctlOf_reach (calls : List (Call F)) : CtlReach (ctlOf calls) := by
+  suffices H : ∀ (calls : List (Call F)) (m : Ctl F), CtlReach m →
+      CtlReach (calls.foldl (fun m c => tickAll m c.1 c.2) m) from H calls [] .empty
+  intro calls
+  induction calls with
+  | nil => intro m h; exact h
+  | cons c cs ih => intro m h; exact ih _ (.tick c.1 c.2 h)
+
+theorem CtlReach.exists_calls {m : Ctl F} (h : CtlReach m) : ∃ calls : List (Call F), m = ctlOf calls := by
+  induction h with
+  | empty => exact ⟨[], rfl⟩
+  | tick conns now _ ih =>
+    obtain ⟨calls, rfl⟩ := ih
+    exact ⟨calls ++ [(conns, now)], (ctlOf_snoc calls (conns, now)).symm⟩
+
+/-- the entry of `id` after the loop of one call -/
+theorem tickLoop_get (m : Ctl F) (now : Nat) (cs : List (ConnIn F)) (id : Nat) :
+    (tickLoop m now cs).get id =
+      if cs.any (·.id == id) then
+        some ((cs.filter (·.id == id)).foldl (fun s c => connStep s c now) ((m.get id).getD St.default))
+      else m.get id := by
+  induction cs generalizing m with
+  | nil => simp [tickLoop]
+  | cons c cs ih =>
+    simp only [tickLoop]
+    rw [ih]
+    by_cases hc : c.id = id
+    · have hb : (c.id == id) = true := by simp [hc]
+      have hg : (m.set c.id (connStep ((m.get c.id).getD St.default) c now)).get id =
+          some (connStep ((m.get id).getD St.default) c now) := by
+        rw [← hc]; exact get_set_same _ _ _
+      simp only [List.any_cons, hb, Bool.true_or, if_true, List.filter_cons, List.foldl_cons, hg,
+        Option.getD_some]
+      split
+      · rfl
+      · rename_i hany
+        have hnil : cs.filter (·.id == id) = [] := by
+          rw [List.filter_eq_nil_iff]
+          intro a ha hai
+          exact hany (List.any_eq_true.2 ⟨a, ha, hai⟩)
+        rw [hnil]; rfl
+    · have hb : (c.id == id) = false := by simp [hc]
+      have hg : (m.set c.id (connStep ((m.get c.id).getD St.default) c now)).get id = m.get id :=
+        get_set_other _ _ _ _ (fun e => hc e.symm)
+      simp only [List.any_cons, hb, Bool.false_or, List.filter_cons, hg]
+      rfl
+
+/-- the entry of `id` after one `tick_all` call, for ANY slice (ids may repeat): absent if the slice
+does not contain `id`, else the loop bodies of the inputs with that id applied in order to the old
+entry (or to the default state). -/
+theorem tickAll_get (m : Ctl F) (cs : List (ConnIn F)) (now id : Nat) :
+    (tickAll m cs now).get id =
+      if cs.any (·.id == id) then
+        some ((cs.filter (·.id == id)).foldl (fun s c => connStep s c now) ((m.get id).getD St.default))
+      else none := by
+  simp only [tickAll]
+  rw [get_filter (tickLoop m now cs) (fun k => cs.any (·.id == k)) id, tickLoop_get]
+  split <;> rfl
+
+theorem foldl_connStep_run (cs : List (ConnIn F)) (now : Nat) (ops : List (Op F)) :
+    cs.foldl (fun s c => connStep s c now) (run ops) = run (ops ++ cs.flatMap (connOps · now)) := by
+  induction cs generalizing ops with
+  | nil => simp
+  | cons c cs ih =>
+    simp only [List.foldl_cons, List.flatMap_cons]
+    rw [connStep_run, ih, List.append_assoc]
+
+/-- one call on an entry that is a history state (`ops = []` for "no entry") -/
+theorem tickAll_get_run (m : Ctl F) (call : Call F) (id : Nat) (ops : List (Op F))
+    (hm : (m.get id).getD St.default = run ops) (hp : hasId id call = true) :
+    (tickAll m call.1 call.2).get id = some (run (ops ++ callOps id call)) := by
+  rw [tickAll_get, if_pos (show call.1.any (·.id == id) = true from hp), hm, foldl_connStep_run]
+  rfl
+
+theorem ctl_absent (pre : List (Call F)) (id : Nat)
+    (h : ∀ last, pre.getLast? = some last → hasId id last = false) : (ctlOf pre).get id = none := by
+  rcases List.eq_nil_or_concat pre with rfl | ⟨init, last, rfl⟩
+  · rfl
+  · have hl := h last (by simp)
+    rw [List.concat_eq_append, ctlOf_snoc, tickAll_get]
+    have : last.1.any (·.id == id) = false := hl
+    simp [this]
+
+theorem foldl_calls_get (suf : List (Call F)) (id : Nat) (m : Ctl F) (ops : List (Op F))
+    (hm : m.get id = some (run ops)) (hp : ∀ call ∈ suf, hasId id call = true) :
+    (suf.foldl (fun m c => tickAll m c.1 c.2) m).get id = some (run (ops ++ sessionOps id suf)) := by
+  induction suf generalizing m ops with
+  | nil => simpa [sessionOps] using hm
+  | cons c cs ih =>
+    simp only [List.foldl_cons, sessionOps, List.flatMap_cons]
+    rw [← List.append_assoc]
+    exact ih _ _ (tickAll_get_run m c id ops (by rw [hm]; rfl) (hp c List.mem_cons_self))
+      (fun call hc => hp call (List.mem_cons_of_mem _ hc))
+
+/-- **The entry of `id` is the state after exactly its own inputs since it was (re)created.** -/
+theorem ctlOf_get_session (id : Nat) (pre suf : List (Call F)) (hS : Session id pre suf) :
+    (ctlOf (pre ++ suf)).get id = some (run (sessionOps id suf)) := by
+  obtain ⟨ha, hp, hne⟩ := hS
+  cases suf with
+  | nil => exact absurd rfl hne
+  | cons c cs =>
+    rw [ctlOf_append]
+    simp only [List.foldl_cons]
+    have h0 := ctl_absent pre id ha
+    have h1 : (tickAll (ctlOf pre) c.1 c.2).get id = some (run ([] ++ callOps id c)) :=
+      tickAll_get_run (ctlOf pre) c id [] (by rw [h0]; rfl) (hp c List.mem_cons_self)
+    have := foldl_calls_get cs id _ _ h1 (fun call hc => hp call (List.mem_cons_of_mem _ hc))
+    simpa [sessionOps] using this
+
+/-- every present entry has a session: split the calls at the last call that does not contain `id`
+(stated on the reversed list so that plain list induction adds calls at the END) -/
+theorem exists_session_rev (id : Nat) (rev : List (Call F)) :
+    ∀ s : St F, (ctlOf rev.reverse).get id = some s →
+      ∃ pre suf, rev.reverse = pre ++ suf ∧ Session id pre suf := by
+  induction rev with
+  | nil => intro s hg; simp [ctlOf, Ctl.get] at hg
+  | cons last irev ih =>
+    intro s hg
+    rw [List.reverse_cons] at hg ⊢
+    have hl : hasId id last = true := by
+      rw [ctlOf_snoc, tickAll_get] at hg
+      by_cases h : last.1.any (·.id == id) = true
+      · exact h
+      · simp [h] at hg
+    cases hi : (ctlOf irev.reverse).get id with
+    | none =>
+      refine ⟨irev.reverse, [last], rfl, ?_, ?_, by simp⟩
+      · intro l hlast
+        cases irev with
+        | nil => simp at hlast
+        | cons l2 i2 =>
+          rw [List.reverse_cons] at hlast hi
+          simp only [List.getLast?_append, List.getLast?_singleton, Option.some_or, Option.some.injEq] at hlast
+          subst hlast
+          rw [ctlOf_snoc, tickAll_get] at hi
+          by_cases h : l2.1.any (·.id == id) = true
+          · simp [h] at hi
+          · simpa [hasId] using h
+      · intro call hc; simp at hc; subst hc; exact hl
+    | some s0 =>
+      obtain ⟨pre, suf, he, hS⟩ := ih s0 hi
+      refine ⟨pre, suf ++ [last], by rw [he]; simp, hS.absent_before, ?_, by simp⟩
+      intro call hc
+      rcases List.mem_append.1 hc with hc | hc
+      · exact hS.present call hc
+      · simp at hc; subst hc; exact hl
+
+theorem exists_session (calls : List (Call F)) (id : Nat) (s : St F) (hg : (ctlOf calls).get id = some s) :
+    ∃ pre suf, calls = pre ++ suf ∧ Session id pre suf := by
+  have := exists_session_rev id calls.reverse s (by simpa using hg)
+  simpa using this
+
+/-- **Strengthened `CtlReach.entry_run`**: every entry of a reachable controller is `run` of the
+concatenation of `connOps c now` over the inputs `c` with `c.id = id` of the calls since the entry
+was (re)created. -/
+theorem CtlReach.entry_session {m : Ctl F} (h : CtlReach m) (id : Nat) (s : St F) (hg : m.get id = some s) :
+    ∃ pre suf : List (Call F), m = ctlOf (pre ++ suf) ∧ Session id pre suf ∧ s = run (sessionOps id suf) := by
+  obtain ⟨calls, rfl⟩ := h.exists_calls
+  obtain ⟨pre, suf, rfl, hS⟩ := exists_session calls id s hg
+  refine ⟨pre, suf, rfl, hS, ?_⟩
+  rw [ctlOf_get_session id pre suf hS] at hg
+  exact (Option.some.inj hg).symm
+
+/-- membership in the ops of a session: which inputs they come from -/
+theorem mem_sessionOps {id : Nat} {suf : List (Call F)} {op : Op F} (h : op ∈ sessionOps id suf) :
+    ∃ call ∈ suf, ∃ c ∈ call.1, c.id = id ∧ op ∈ connOps c call.2 := by
+  simp only [sessionOps, callOps, List.mem_flatMap, List.mem_filter, beq_iff_eq] at h
+  obtain ⟨call, hc, c, ⟨hcm, hid⟩, hop⟩ := h
+  exact ⟨call, hc, c, hcm, hid, hop⟩
+
+/-- an RTT op among the ops of one loop body is the connection's smoothed RTT, and it compared `> 0.0` -/
+theorem mem_connOps_rtt {c : ConnIn F} {now : Nat} {x : F} {t : Nat} (h : Op.rtt x t ∈ connOps c now) :
+    x = c.smoothRtt ∧ t = now ∧ Scalar.lt (zero : F) c.smoothRtt = true := by
+  simp only [connOps, connPre, List.mem_append, List.mem_singleton, reduceCtorEq, or_false] at h
+  split at h
+  · rename_i hlt
+    simp only [List.mem_singleton, Op.rtt.injEq] at h
+    exact ⟨h.1, h.2, hlt⟩
+  · simp at h
+
+/-- ghost run over an appended op -/
+theorem runG_append (xs ys : List (Op F)) (p : St F × List (Nat × F)) :
+    runG (xs ++ ys) p = runG ys (runG xs p) := by
+  induction xs generalizing p with
+  | nil => rfl
+  | cons x xs ih => obtain ⟨s, tr⟩ := p; simp only [List.cons_append, runG]; exact ih _
+
+/-- ops other than ticks do not extend the ghost trace -/
+theorem runG_connPre_trace (c : ConnIn F) (now : Nat) (p : St F × List (Nat × F)) :
+    (runG (connPre c now) p).2 = p.2 := by
+  obtain ⟨s, tr⟩ := p
+  unfold connPre
+  split <;> simp [runG, traceStep]
+
+/-- a call in which `id` occurs exactly once contributes exactly that input's loop body -/
+theorem callOps_once (id : Nat) (cpre cpost : List (ConnIn F)) (c : ConnIn F) (now : Nat) (hid : c.id = id)
+    (hpre : ∀ d ∈ cpre, d.id ≠ id) (hpost : ∀ d ∈ cpost, d.id ≠ id) :
+    callOps id (cpre ++ c :: cpost, now) = connOps c now := by
+  have h1 : cpre.filter (·.id == id) = [] := by
+    rw [List.filter_eq_nil_iff]; intro a ha; simpa using hpre a ha
+  have h2 : cpost.filter (·.id == id) = [] := by
+    rw [List.filter_eq_nil_iff]; intro a ha; simpa using hpost a ha
+  have h3 : (c.id == id) = true := by simp [hid]
+  simp [callOps, List.filter_append, h1, h2, h3]
+
+omit [Scalar F] in
+/-- extending a session by one more call that contains `id` -/
+theorem session_snoc (id : Nat) (pre suf : List (Call F)) (hS : Session id pre suf) (call : Call F)
+    (h : hasId id call = true) : Session id pre (suf ++ [call]) :=
+  ⟨hS.absent_before, fun c hc => by
+      rcases List.mem_append.1 hc with hc | hc
+      · exact hS.present c hc
+      · simp at hc; subst hc; exact h, by simp⟩
+
+end session
+
 end Srtla.LinkCc
